@@ -81,7 +81,7 @@ Proof.
   - (* release *)
     destruct (Nat.ltb_spec 0 (refs (getth s t))) as [Hr|Hr]; cbn [negb orb] in H; [|discriminate].
     destruct (mustfree (getth s t)) eqn:Hm; [discriminate|]. cbn [orb] in H.
-    destruct (lends_from s t); [discriminate|].
+    destruct (lends_from s t && Nat.leb (refs (getth s t)) 1); [discriminate|].
     destruct (live s); cbn [negb] in H; [|discriminate]. injection H as <-. unfold getth; cbn [ths].
     rewrite getth_upd_eq by exact Ht. split; [reflexivity|]. split; [apply upd_length|].
     split; [intros u Hu _; apply getth_upd_ne; exact Hu|]. split; [reflexivity|]. cbn [refs excl mustfree]. auto.
@@ -95,7 +95,7 @@ Proof.
     repeat split; auto. eapply cle_trans; [apply cle_join_l|apply cle_tick].
   - (* probe *)
     destruct (Nat.ltb_spec 0 (refs (getth s t))) as [Hr|Hr]; cbn [negb orb] in H; [|discriminate].
-    destruct (lends_from s t); [discriminate|].
+    destruct (lends_from s t && Nat.leb (refs (getth s t)) 1); [discriminate|].
     destruct (live s); cbn [negb] in H; [|discriminate].
     destruct (nth_error (msgs s) p) as [m|] eqn:Hm; [|discriminate].
     destruct (forallb _ _); cbn [negb] in H; [|discriminate]. injection H as <-. unfold with_th, getth; cbn [ths].
